@@ -21,7 +21,7 @@ for s in a.seeds.split(","):
                            stdout=subprocess.PIPE, stderr=subprocess.STDOUT, text=True)
         lines = [l for l in r.stdout.splitlines() if "conda" not in l and not l.startswith("KNOWN-FINDING")]
         ok = r.returncode == 0 and not any(l.startswith("VIOLATION") for l in lines)
-        print("%s seed=%s %s %.0fs" % (p, s, "ok" if ok else "FAIL rc=%d" % r.returncode), flush=True)
+        print("%s seed=%s %s %.0fs" % (p, s, "ok" if ok else "FAIL rc=%d" % r.returncode, time.time() - t0), flush=True)
         if not ok:
             bad += 1
             print("\n".join("    " + l[:400] for l in lines[-8:]), flush=True)
